@@ -469,7 +469,7 @@ def run(tier="quick", replay=None):
             REJECTING = ("compiler::codegen::", "compiler::frontend::", "compiler::compiler::compile", "compiler::preprocessor::",
                          "compiler::rename::", "compiler::inline::", "compiler::lambda::", "compiler::optimize::deinline::",
                          "compiler::compiler::DefaultCompilerOpts")
-            PROBES = ("get_callable", "dequote", "lookup_", "is_", "first_of_alist", "get_inline_callable")
+            PROBES = ("get_callable", "dequote", "lookup_", "is_", "first_of_alist", "get_inline_callable", "create_name_lookup")
             prod_paths = [c for c in prod_paths if any(c.startswith(m) or ("<" + m) in c for m in REJECTING)
                           and not any(c.rsplit("::", 1)[-1].startswith(pb) for pb in PROBES)]
             if not prod_paths and not (at.count("CompileErr") >= 2 and comb == "unwrap_or_else"):
@@ -494,7 +494,7 @@ def run(tier="quick", replay=None):
     # without returning an error (`if let Ok(c) = codegen(..) { .. } else { fallback }`)
     REJ = ("compiler::codegen::", "compiler::frontend::", "compiler::compiler::compile", "compiler::preprocessor::",
            "compiler::rename::", "compiler::inline::", "compiler::lambda::", "compiler::optimize::deinline::")
-    PRB = ("get_callable", "dequote", "lookup_", "is_", "first_of_alist", "get_inline_callable")
+    PRB = ("get_callable", "dequote", "lookup_", "is_", "first_of_alist", "get_inline_callable", "create_name_lookup")
     npat = 0
     for g in sorted(prog.fns.values(), key=lambda g: g.path):
         if not g.path.startswith("compiler::") or g.path.startswith("compiler::repl"):
